@@ -1,6 +1,6 @@
 """Per-property manifest texts (level, trusted base).  Harness lists come from the annotations."""
 
-HOOK_COMMITS = ['83a615d', '70f6a25', '2ebdcd0']
+HOOK_COMMITS = ['83a615d', '70f6a25', '2ebdcd0', '9a2449a']
 
 # properties whose checks have been run to completion on the unchanged tree (exit 0) and are claimed in MANIFEST.json
 READY = ['C01', 'C02', 'C03', 'C04', 'C05', 'C09', 'C10', 'C11', 'C12', 'C17', 'C20']
